@@ -94,6 +94,19 @@ func c13builders() []c13builder {
 		b("BuildInitialContextSetupResponse", S, "InitialContextSetupResponse", pcInitialContextSetup, "ARPI", func(a c13args) ngapType.NGAPPDU {
 			return tp.BuildInitialContextSetupResponse(a.amf, a.ran, a.psi, a.ip, nil)
 		}),
+		// the optional failed-to-setup list given as well: naming another session, and naming the very session that is set up
+		b("BuildInitialContextSetupResponse(failed list: another session)", S, "InitialContextSetupResponse", pcInitialContextSetup, "ARPI", func(a c13args) ngapType.NGAPPDU {
+			fl := &ngapType.PDUSessionResourceFailedToSetupListCxtRes{List: []ngapType.PDUSessionResourceFailedToSetupItemCxtRes{{PDUSessionID: ngapType.PDUSessionID{Value: (a.psi + 1) % 256}, PDUSessionResourceSetupUnsuccessfulTransfer: aper.OctetString{0x00, 0x40}}}}
+			return tp.BuildInitialContextSetupResponse(a.amf, a.ran, a.psi, a.ip, fl)
+		}),
+		b("BuildInitialContextSetupResponse(failed list: the same session)", S, "InitialContextSetupResponse", pcInitialContextSetup, "ARPI", func(a c13args) ngapType.NGAPPDU {
+			id := a.psi
+			if id < 0 || id > 255 {
+				id = 7
+			}
+			fl := &ngapType.PDUSessionResourceFailedToSetupListCxtRes{List: []ngapType.PDUSessionResourceFailedToSetupItemCxtRes{{PDUSessionID: ngapType.PDUSessionID{Value: id}, PDUSessionResourceSetupUnsuccessfulTransfer: aper.OctetString{0x00, 0x40}}}}
+			return tp.BuildInitialContextSetupResponse(a.amf, a.ran, a.psi, a.ip, fl)
+		}),
 		b("BuildInitialContextSetupFailure", U, "InitialContextSetupFailure", pcInitialContextSetup, "AR", func(a c13args) ngapType.NGAPPDU { return tp.BuildInitialContextSetupFailure(a.amf, a.ran) }),
 		b("BuildPathSwitchRequest", I, "PathSwitchRequest", pcPathSwitchRequest, "AR", func(a c13args) ngapType.NGAPPDU { return tp.BuildPathSwitchRequest(a.amf, a.ran) }),
 		b("BuildHandoverRequestAcknowledge", S, "HandoverRequestAcknowledge", pcHandoverResourceAllocation, "AR", func(a c13args) ngapType.NGAPPDU { return tp.BuildHandoverRequestAcknowledge(a.amf, a.ran) }),
@@ -299,6 +312,23 @@ func c13verify(r *report.Report, codec *refper.Codec, s *refper.Schema, who, cla
 		}
 		if len(vs) == 0 {
 			r.Violate("builder/"+who+"/missing-"+comp, cs, "no "+comp+" in the encoding", nil)
+			return
+		}
+		if comp == "PDUSessionID" && strings.Contains(who, "failed list: another session") {
+			// this entry point is also given a second session (want+1) for the failed-to-setup list: the argument's own
+			// identity must be there, and nothing but the two identities given
+			seenOwn := false
+			for _, v := range vs {
+				x := v.Get("Value")
+				if x != nil && x.I == want {
+					seenOwn = true
+				} else if x == nil || x.I != (want+1)%256 {
+					r.Violate("builder/"+who+"/"+comp+"-differs-from-argument", cs, fmt.Sprintf("encoded %s, arguments %d and %d", v, want, (want+1)%256), nil)
+				}
+			}
+			if !seenOwn {
+				r.Violate("builder/"+who+"/missing-"+comp, cs, fmt.Sprintf("the session %d that was set up is not in the encoding", want), nil)
+			}
 			return
 		}
 		for _, v := range vs {
